@@ -4,6 +4,7 @@ package harness
 
 import (
 	"fmt"
+	"github.com/ipfs/go-unixfsnode"
 	"io"
 	"testing"
 	"time"
@@ -148,9 +149,14 @@ func c13Run(m *mnode, extraKeys ...string) (xs exerciseStats, panicked any, stac
 	xs.byteBudget = payload + 1<<20
 	budget := 200 * nodes
 	keysToTry := append([]string{"", "a", "0a", "x", "abc", "00", "inner", "Links"}, extraKeys...)
-	for _, reifier := range []string{"Reify", "unixfs", "unixfs-preload"} {
+	for _, reifier := range []string{"Reify", "unixfs", "unixfs-preload", "Load+NodeReifier"} {
 		st.ResetLogs()
 		st.LoadBudget = budget
+		if reifier == "Load+NodeReifier" {
+			// a link system that reifies every node it loads (LinkSystem.NodeReifier = unixfsnode.Reify): children arrive in
+			// the readers already reified, and a file read through it re-reads a child per Read (quadratic by construction)
+			st.LoadBudget = budget * (nodes + 1)
+		}
 		st.BudgetExceeded = false
 		panicked, stack = safe(func() {
 			pn, e := loadPlain(ls, root)
@@ -158,7 +164,11 @@ func c13Run(m *mnode, extraKeys ...string) (xs exerciseStats, panicked any, stac
 				return
 			}
 			var rn datamodel.Node
-			if reifier == "Reify" {
+			if reifier == "Load+NodeReifier" {
+				ls2 := *ls
+				ls2.NodeReifier = unixfsnode.Reify
+				rn, e = ls2.Load(ipld.LinkContext{}, cidLink(root), protoForCid(root))
+			} else if reifier == "Reify" {
 				rn, e = loadReified(ls, root, "unixfs")
 			} else {
 				rn, e = ls.KnownReifiers[reifier](lc0, pn, ls)
